@@ -903,7 +903,21 @@ static void do_scan(char** tk, int ntk)
     memset(&ic, 0, sizeof(ic));
     int sizes[256];
     int ns = 0;
-    parse_intlist(part, sizes, &ns, 256);
+    if (part[0] == '@')
+    {
+      // "@N": N blocks of (almost) equal size
+      int nb = atoi(part + 1);
+      if (nb < 1)
+        nb = 1;
+      if (nb > 200)
+        nb = 200;
+      size_t each = bufs[b].n / nb;
+      for (int i = 0; i < nb; i++) sizes[i] = (int) each;
+      sizes[nb - 1] = (int) (bufs[b].n - each * (nb - 1));
+      ns = nb;
+    }
+    else
+      parse_intlist(part, sizes, &ns, 256);
     if (ns == 0)
     {
       sizes[0] = (int) bufs[b].n;
